@@ -4,6 +4,7 @@ import (
 	"encoding/json"
 	"fmt"
 	"sort"
+	"strings"
 	"testing"
 
 	textwire "github.com/textwire/textwire/v2"
@@ -399,4 +400,112 @@ func TestC20_RepeatedCalls(t *testing.T) {
 	}
 	textwire.VerifReset()
 	c.ExhaustivePart("5 scenarios")
+}
+
+// ---------------------------------------------------------------- results of unsupported kinds
+
+type badResultCase struct {
+	Shape string `json:"shape"`
+	Tmpl  string `json:"tmpl"`
+}
+
+// c20BadResults: values an array function may return that hold, somewhere, a value of a kind the library does not take.
+var c20BadResults = map[string]func() []any{
+	"direct-chan":           func() []any { return []any{1, make(chan int)} },
+	"direct-func":           func() []any { return []any{func() {}, 2} },
+	"direct-complex":        func() []any { return []any{complex(1, 2)} },
+	"direct-array":          func() []any { return []any{[2]int{1, 2}} },
+	"direct-int-keyed-map":  func() []any { return []any{map[int]string{1: "a"}} },
+	"in-any-slice":          func() []any { return []any{[]any{1, make(chan int)}} },
+	"in-any-map":            func() []any { return []any{map[string]any{"ok": 1, "bad": make(chan int)}} },
+	"in-any-map-only-entry": func() []any { return []any{map[string]any{"bad": func() {}}} },
+	"in-any-map-in-any-map": func() []any { return []any{map[string]any{"m": map[string]any{"bad": complex(0, 1)}}} },
+	"in-any-map-in-slice":   func() []any { return []any{1, []any{map[string]any{"a": 1, "z": make(chan string)}}} },
+	"in-slice-in-any-map":   func() []any { return []any{map[string]any{"l": []any{1, func() {}}}} },
+	"in-typed-map":          func() []any { return []any{map[string]chan int{"c": make(chan int)}} },
+	"in-typed-slice":        func() []any { return []any{[]chan int{make(chan int)}} },
+	"in-struct-field":       func() []any { return []any{struct{ C chan int }{make(chan int)}} },
+	"in-struct-in-any-map":  func() []any { return []any{map[string]any{"s": struct{ F func() }{func() {}}}} },
+	"behind-pointer":        func() []any { c := make(chan int); return []any{&c} },
+	"behind-pointer-in-map": func() []any { c := complex(1, 1); return []any{map[string]any{"p": &c}} },
+	"last-of-many":          func() []any { return []any{1, "a", 2.5, true, nil, []any{}, map[string]any{}, make(chan int)} },
+	"in-any-map-among-many": func() []any {
+		return []any{map[string]any{"a": 1, "b": "x", "c": []any{1}, "d": map[string]any{}, "e": nil, "f": make(chan int), "g": 2}}
+	},
+	"int-keyed-map-in-any-map": func() []any { return []any{map[string]any{"m": map[int]int{1: 1}}} },
+}
+
+func c20BadResult(c *harness.Check, cs badResultCase) string {
+	mk := c20BadResults[cs.Shape]
+	if mk == nil {
+		return "bad case"
+	}
+	failure := ""
+	pi := c.Guard("json", mustJSON(cs), func() {
+		textwire.VerifReset()
+		if err := textwire.RegisterArrFunc("zzBad", func(x []any, a ...any) []any { return mk() }); err != nil {
+			failure = "harness: " + err.Error()
+			return
+		}
+		// the same Go value passed as data is refused
+		if _, err := textwire.EvaluateString(strings.ReplaceAll(cs.Tmpl, "xs.zzBad()", "v"), map[string]any{"v": mk(), "xs": []int{1}}); err == nil {
+			failure = "harness: the value is accepted as data"
+			return
+		}
+		out, err := textwire.EvaluateString(cs.Tmpl, map[string]any{"xs": []int{1}})
+		if err == nil {
+			failure = fmt.Sprintf("the function's result holds a value of an unsupported kind; as data it is refused, as a result it rendered %q", out)
+		} else if out != "" {
+			failure = fmt.Sprintf("error together with output %q", out)
+		}
+	})
+	textwire.VerifReset()
+	if pi != nil {
+		return "panic: " + pi.Value
+	}
+	if strings.HasPrefix(failure, "harness:") {
+		c.Class(failure)
+		return ""
+	}
+	return failure
+}
+
+func init() {
+	harness.RegisterReplayer("C20/unsupported-results", func(raw json.RawMessage) string {
+		cs, err := unJSON[badResultCase](raw)
+		if err != nil {
+			return "bad case: " + err.Error()
+		}
+		return c20BadResult(harness.New(nopTB{}, "C20", "replay", ""), cs)
+	})
+}
+
+func TestC20_UnsupportedResults(t *testing.T) {
+	tmpls := []string{"[{{ xs.zzBad().len() }}]", "[{{ xs.zzBad() }}]", "[{{ y = xs.zzBad(); 1 }}]", "@each(v in xs.zzBad())a@end", "[{{ xs.zzBad()[0] }}]", "@if(xs.zzBad())a@end", "[{{ [xs.zzBad()].len() }}]", "[{{ xs.zzBad().reverse().len() }}]"}
+	c := harness.New(t, "C20", "unsupported-results",
+		fmt.Sprintf("a registered array function whose result holds a value of a kind the library does not take (chan, func, complex, fixed-size array, a map with integer keys) at %d places - directly, in a nested []any, in a map[string]any (only entry, among many, two deep, inside a slice, holding a slice, holding a struct), in typed maps and slices, in a struct field, behind a pointer, last of many - called in %d ways (length, print, assignment, @each, index, condition, array element, chained built-in): the same Go value passed as data is refused, so the call must fail with an error and without output, and never panic. Exhaustive. Non-trivial: all. Distinct by construction.", len(c20BadResults), len(tmpls)))
+	defer c.Finish()
+	shapes := make([]string, 0, len(c20BadResults))
+	for s := range c20BadResults {
+		shapes = append(shapes, s)
+	}
+	sortStrings(shapes)
+	idx := 0
+	for _, sh := range shapes {
+		for _, tm := range tmpls {
+			idx++
+			if !harness.Mine(idx) {
+				continue
+			}
+			cs := badResultCase{Shape: sh, Tmpl: tm}
+			c.CaseEnum(true, "shape:"+sh)
+			if idx%17 == 0 {
+				c.Sample(cs)
+			}
+			if f := c20BadResult(c, cs); f != "" {
+				c.Fail(t, kindOf(f), cs, "an error, no output", f, f)
+			}
+		}
+	}
+	c.ExhaustivePart(fmt.Sprintf("%d result shapes x %d call forms", len(shapes), len(tmpls)))
 }
